@@ -393,7 +393,33 @@ pub fn gen_c13(tier: &str, seed: u64, out: &mut Vec<String>) {
         let mut heap_hint: u64 = 0; // filled by reading RAX through `rr`
         let calls = 2 + rng.below(8);
         for c in 0..calls {
+            if c == 1 {
+                // R15 := the break the first call reported (the heap base: the heap starts empty); R14 follows the latest result
+                out.push("cpreg R15 RAX 0".into());
+            }
+            if c >= 1 {
+                out.push("cpreg R14 RAX 0".into());
+            }
             out.push("rw 64 RAX c".into());
+            if c >= 1 && rng.chance(1, 3) {
+                // an argument derived from what the run returned: the current break again, the heap base exactly (shrink to
+                // nothing) and a later regrow, one byte around either
+                let (src, delta) = match rng.below(7) {
+                    0 | 1 => ("R14", 0u64),
+                    2 => ("R15", 0),
+                    3 => ("R15", 1 + rng.below(0x800)),
+                    4 => ("R14", 1),
+                    5 => ("R14", u64::MAX),
+                    _ => ("R15", u64::MAX),
+                };
+                out.push(format!("cpreg RDI {} {:x}", src, delta));
+                out.push("step".into());
+                out.push("rr 64 RAX".into());
+                out.push("sys".into());
+                out.push("areas".into());
+                out.push("step".into());
+                continue;
+            }
             // argument: 0 (query), or relative to a plausible heap range
             let arg = if c == 0 || rng.chance(1, 4) {
                 0
@@ -493,6 +519,14 @@ pub fn gen_c14(tier: &str, seed: u64, out: &mut Vec<String>) {
                     out.push(format!("rw 64 RSI {:x}", data));
                     out.push(format!("rw 64 RDX {:x}", len));
                 }
+                4 if rng.chance(1, 3) => {
+                    // misuse: read from the write end / write to the read end (not this handler's business: falls through)
+                    let rd = rng.chance(1, 2);
+                    out.push(format!("rw 64 RAX {}", if rd { 0 } else { 1 }));
+                    out.push(format!("ldreg RDI {:x}", BUF + 16 * p + if rd { 8 } else { 0 }));
+                    out.push(format!("rw 64 RSI {:x}", data));
+                    out.push(format!("rw 64 RDX {:x}", *rng.pick(&[0u64, 1, 4, 0x20])));
+                }
                 4..=7 => {
                     // read from the read end: smaller, equal, larger than what is there
                     let len = match rng.below(5) { 0 => 0, 1 => 1, 2 => 0x200, _ => rng.below(0x80) };
@@ -510,7 +544,7 @@ pub fn gen_c14(tier: &str, seed: u64, out: &mut Vec<String>) {
                         out.push(format!("ldreg RDI {:x}", BUF + 16 * p + 8 * rng.below(2)));
                     }
                     out.push(format!("rw 64 RSI {:x}", data));
-                    out.push("rw 64 RDX 4".into());
+                    out.push(format!("rw 64 RDX {:x}", *rng.pick(&[4u64, 0, 0, 1, 0x40])));
                 }
                 _ => {
                     // unrelated syscall number
@@ -545,14 +579,19 @@ pub fn gen_c17(tier: &str, seed: u64, out: &mut Vec<String>) {
             if cnt == 0 {
                 return "-".into();
             }
-            (0..cnt)
-                .map(|_| {
-                    let len = match rng.below(6) { 0 => 0, 1 => 1, 2 => 200, _ => rng.below(24) };
-                    let s: Vec<u8> = (0..len).map(|_| b'a' + (rng.below(26) as u8)).collect();
-                    hex(&s)
-                })
-                .collect::<Vec<_>>()
-                .join(",")
+            let mut v: Vec<String> = vec![];
+            for _ in 0..cnt {
+                // repeated values are common in real argument lists ("-v -v", an argument equal to an environment entry)
+                if !v.is_empty() && rng.chance(1, 4) {
+                    let d = rng.pick(&v).clone();
+                    v.push(d);
+                    continue;
+                }
+                let len = match rng.below(6) { 0 => 0, 1 => 1, 2 => 200, _ => rng.below(24) };
+                let s: Vec<u8> = if rng.chance(1, 6) { b"-v".to_vec() } else { (0..len).map(|_| b'a' + (rng.below(26) as u8)).collect() };
+                v.push(hex(&s));
+            }
+            v.join(",")
         };
         let argc = match rng.below(6) { 0 => 0, 1 => 1, 2 => 30, _ => rng.below(6) };
         let envc = match rng.below(6) { 0 => 0, 1 => 1, 2 => 25, _ => rng.below(6) };
@@ -571,6 +610,7 @@ pub fn gen_c17(tier: &str, seed: u64, out: &mut Vec<String>) {
             out.push("step".into());
         }
         out.push("regs".into());
+        out.push("areas".into());
     }
 }
 
